@@ -22,7 +22,8 @@ def one(name):
         for c in CHECKS:
             r = subprocess.run(['./check', c, '--tier', 'quick'], cwd=ROOT, capture_output=True, text=True, env=env)
             lines = [l for l in r.stdout.split('\n') if l.startswith('VIOLATION')]
-            row[c] = 'no' if r.returncode == 0 else ('input' if lines and 'no-failing-input-found' not in lines[0] else 'no-input')
+            row[c] = 'no' if r.returncode == 0 else ('input' if lines and 'no-failing-input-found' not in lines[0] else
+                                                    'crash' if 'Traceback (most recent call last)' in r.stdout + r.stderr else 'no-input')
     finally:
         subprocess.run('git -C /repo worktree remove --force %s; git -C /repo worktree prune; rm -rf /tmp/seedmatrix-evidence-%s /tmp/seedmatrix-replays-%s' % (wt, name, name),
                        shell=True, capture_output=True)
